@@ -26,7 +26,8 @@ EXTENDS Integers, Sequences, FiniteSets, TLC
 CONSTANTS S,              \* state domain, e.g. 0..2
           Kinds,          \* subset of {"while", "fori", "scan", "cond", "vwhile"}
           MaxSteps,       \* lockstep bound (|S| suffices for every terminating loop)
-          CondOnNewState  \* TRUE = the wiring of the code
+          CondOnNewState, \* TRUE = the wiring of the code
+          ScanRev, ScanHx \* subsets of BOOLEAN: which scan variants are enumerated
 
 X == {0, 1}                                  \* scanned element domain
 Bounds == {<<0, 0>>, <<0, 1>>, <<0, 2>>, <<0, 3>>, <<1, 3>>, <<2, 1>>, <<3, 3>>, <<-1, 1>>}
@@ -43,6 +44,9 @@ VARIABLES kind, prog,
 vars == <<kind, prog, js, jrun, jn, jys, os, ocond, oi, oys, t>>
 
 Max2(a, b) == IF a >= b THEN a ELSE b
+ScanRejected == kind = "scan" /\ prog.rev             \* constructs without a wiring: export must raise (or be right)
+RevSeq(q) == [i \in 1..Len(q) |-> q[Len(q) + 1 - i]]
+JaxYs == IF kind = "scan" /\ prog.rev THEN RevSeq(jys) ELSE jys   \* stacked outputs as the user sees them
 Lo == prog.bd[1]
 Hi == prog.bd[2]
 TripBound == CASE kind = "while" -> Inf
@@ -66,7 +70,9 @@ InitFori ==
 
 InitScan ==
     /\ kind = "scan"
-    /\ prog \in [f : [S \X X -> S], c0 : S, xs : XSeqs]
+    \* rev = lax.scan(..., reverse=TRUE); hx = FALSE is the counted scan (xs = None, length = n): the body sees x = 0
+    /\ prog \in {p \in [f : [S \X X -> S], c0 : S, xs : XSeqs, rev : BOOLEAN, hx : BOOLEAN] :
+                    (~p.hx => \A i \in 1..Len(p.xs) : p.xs[i] = 0) /\ (p.rev \in ScanRev) /\ (p.hx \in ScanHx)}
     /\ js = prog.c0 /\ jrun = (Len(prog.xs) > 0) /\ jn = 0 /\ jys = <<>>
     /\ os = prog.c0 /\ ocond = TRUE /\ oi = 0 /\ oys = <<>>
 
@@ -117,12 +123,14 @@ StepFori ==
 
 StepScan ==
     /\ kind = "scan"
-    /\ jrun \/ (ocond /\ oi < Len(prog.xs))
-    /\ IF jrun THEN LET x == prog.xs[jn + 1] IN
+    /\ jrun \/ (~ScanRejected /\ ocond /\ oi < Len(prog.xs))
+    \* JAX: a reverse scan consumes xs from the end; its i-th step output belongs at the index it consumed
+    /\ IF jrun THEN LET x == prog.xs[IF prog.rev THEN Len(prog.xs) - jn ELSE jn + 1] IN
                     /\ js' = prog.f[<<js, x>>] /\ jys' = Append(jys, <<js, x>>)
                     /\ jn' = jn + 1 /\ jrun' = (jn + 1 < Len(prog.xs))
                ELSE UNCHANGED <<js, jn, jrun, jys>>
-    /\ IF ocond /\ oi < Len(prog.xs)
+    \* ONNX Loop as the plugin wires it: forward only; a reverse scan has no wiring (the plugin must reject it)
+    /\ IF ~ScanRejected /\ ocond /\ oi < Len(prog.xs)
          THEN LET x == prog.xs[oi + 1] IN
               /\ os' = prog.f[<<os, x>>] /\ oys' = Append(oys, <<os, x>>)
               /\ oi' = oi + 1 /\ ocond' = TRUE
@@ -162,16 +170,18 @@ Spec == Init /\ [][Next]_vars
 
 ---------------------------------------------------------------------------
 JaxDone == IF kind = "vwhile" THEN ~AnyLane(jrun) ELSE ~jrun
-OnnxDone == CASE kind = "vwhile" -> ~AnyLane(ocond)
+OnnxDone == CASE ScanRejected -> TRUE
+              [] kind = "vwhile" -> ~AnyLane(ocond)
               [] kind = "cond" -> ~ocond
               [] OTHER -> ~(ocond /\ oi < TripBound)
 
 \* refinement: at every lockstep instant the two machines are in the same state
-Agree == /\ js = os
+Agree == ScanRejected \/
+         /\ js = os
          /\ jys = oys
          /\ (kind \notin {"vwhile"}) => (jn = oi /\ (JaxDone <=> OnnxDone))
          /\ (kind = "vwhile") => (AnyLane(jrun) <=> AnyLane(ocond))
 
 \* final results agree (what a user observes)
-FinalAgree == (JaxDone /\ OnnxDone) => (js = os /\ jys = oys)
+FinalAgree == (JaxDone /\ OnnxDone /\ ~ScanRejected) => (js = os /\ jys = oys)
 =============================================================================
